@@ -76,6 +76,9 @@ func (fr *Frame) doCallCommon(ins ssa.Instruction, c *ssa.CallCommon, pc *string
 		callee, mc = fr.resolveCallee(c)
 		if callee != nil {
 			fc = vc.g.contractFor(callee)
+		} else if k := fieldCallKey(c.Value); k != "" {
+			fc = vc.g.contracts[k]
+			names = []string{k}
 		}
 	}
 	if fc != nil {
@@ -587,6 +590,9 @@ func (fr *Frame) siteMatches(sa *SiteAction, ins ssa.Instruction) bool {
 			names = funcNames(f)
 		} else {
 			names = calleeNames(c)
+			if k := fieldCallKey(c.Value); k != "" {
+				names = append(names, k, "field:"+k[strings.LastIndex(k[:strings.LastIndex(k, ".")], ".")+1:])
+			}
 		}
 		for _, n := range names {
 			if n == sa.Pattern || shortKey(n) == sa.Pattern {
